@@ -54,6 +54,9 @@ public:
 
     bool isSequential() const override { return true; }
     qint64 bytesAvailable() const override { return inbox.size() + QIODevice::bytesAvailable(); }
+    // QAbstractSocket::bytesToWrite() is what has not left the write buffer yet, i.e. what bytesWritten()
+    // has not reported
+    qint64 bytesToWrite() const override { return unacked; }
 
     void close() override
     {
